@@ -3,6 +3,7 @@ package main
 import (
 	"fmt"
 	"go/token"
+	"go/types"
 	"strings"
 
 	"golang.org/x/tools/go/ssa"
@@ -223,4 +224,31 @@ func (x *Exec) checkCalleeLocks(st *State, fn *ssa.Function, key string) {
 			st.obls = append(st.obls, Obl{Name: name, Tags: []string{"C09"}, Goal: TTrue, PCLen: len(st.pc), Static: "ok", Desc: "locks of the contracted callee are acquired in level order"})
 		}
 	}
+}
+
+// checkAtomic: a method of the type that owns a mutex performs its work in one critical section on
+// its own receiver (check-then-act split over two critical sections is not atomic).
+func (x *Exec) checkAtomic(st *State, field string, ref Term) {
+	if st.dryWrites != nil || x.fn.Signature.Recv() == nil || len(x.fn.Params) == 0 {
+		return
+	}
+	recv := x.fn.Params[0]
+	pt, ok := types.Unalias(recv.Type()).Underlying().(*types.Pointer)
+	if !ok {
+		return
+	}
+	owner := typeName(pt.Elem())
+	if !strings.HasPrefix(field, owner+".") {
+		return
+	}
+	rv, ok := x.params[recv.Name()]
+	if !ok || rv.T().S != ref.S {
+		return
+	}
+	name := "atomic:" + field
+	if st.released[field+"@"+ref.S] {
+		st.obligeStaticFail(name, []string{"C09", "C10"}, "the method re-acquires "+field+" of its receiver after releasing it: its effect is split over two critical sections (not atomic under concurrent callers)")
+		return
+	}
+	st.obls = append(st.obls, Obl{Name: name, Tags: []string{"C09", "C10"}, Goal: TTrue, PCLen: len(st.pc), Static: "ok", Desc: "single critical section on " + field})
 }
